@@ -39,7 +39,11 @@ MANIFEST = {
             "non-first molecules in the images {-1,0,1}^3 relative to the first (27, 27^2 = 729; guessed 3-anchor system 7^2 "
             "face images); image_molecules with make_whole True and False; additionally judged: every ANCHOR molecule gets one "
             "common lattice shift (make_whole=False) and all bonded pairs are at the minimum image (make_whole=True). "
-            "Explicit sorted_bonds=: for every system variant (all relabellings) "
+            "View sources: for every system variant (first cell pair) the inplace=False calls are repeated on "
+            "source trajectories whose coordinate array does not own its memory - md.Trajectory built on a window of a "
+            "larger float32 buffer, t.slice(slice(0,m), copy=False), a single frame t[i] - and the source (xyz, time, cell), "
+            "the parent buffer and the result are checked: source and parent bit-identical, no shared memory, result equal to "
+            "the owning-source result. Explicit sorted_bonds=: for every system variant (all relabellings) "
             "make_molecules_whole and image_molecules(make_whole=True) are also called with a caller-supplied, correct "
             "placement order (breadth-first walk from the HIGHEST atom index of each molecule, thorough also from the lowest; "
             "rows (placed atom, atom to place), mostly not lexicographically sorted) and judged by the same lattice / "
@@ -207,7 +211,7 @@ def _empty_stats():
     return dict(evals=0, nontrivial=0, err=0.0, guess_raised=0, md_inconsistent=0, excluded_ambiguous=0,
                 excluded_illcond=0, anchor_not_rigid_recorded=0, frames=0, sample=None, api_runs=0, tuples_checked=0,
                 topologies=0, histories=0, histories_pruned=0, explicit_bond_calls=0, explicit_bond_identical_to_default=0,
-                single_frame_calls=0)
+                single_frame_calls=0, view_source_calls=0, view_sources_that_own_memory=0)
 
 
 def _min_image_rows(disp, V, sel, Rs):
@@ -755,6 +759,64 @@ def run_item(arg):
                 else:
                     judge(tag, r.xyz.copy(), light=True)
 
+    # ---- inplace=False on source trajectories whose coordinate array does NOT own its memory (first cell pair only) ----
+    if (ci == 0 and not only) or only == "view-source":
+        m = min(F, 48)
+        mid = m // 2
+
+        def make_source(kind):
+            if kind == "view-of-buffer":
+                big = np.full((m + 4, n, 3), 7.0, np.float32)
+                big[2:m + 2] = snap["xyz"][:m]
+                t = md.Trajectory(big[2:m + 2], _topology(sysv), time=snap["time"][:m].copy(),
+                                  unitcell_lengths=snap["ul"][:m].copy(), unitcell_angles=snap["ua"][:m].copy())
+                return t, big, slice(0, m), slice(2, m + 2)
+            full, _sc, _sel, _w = _build(sysv, cells, quick, seed)
+            if kind == "slice-copy=False":
+                return full.slice(slice(0, m), copy=False), full.xyz, slice(0, m), slice(0, m)
+            return full[mid], full.xyz, slice(mid, mid + 1), slice(mid, mid + 1)          # single frame t[i]
+
+        for kind in ("view-of-buffer", "slice-copy=False", "single-frame-t[i]"):
+            for api in apis:
+                if api not in default_result:
+                    continue
+                tag = "%s/source=%s" % (api, kind)
+                src, parent, fr, pfr = make_source(kind)
+                if src.xyz.base is None:
+                    st["view_sources_that_own_memory"] += 1        # mdtraj copied on construction: recorded
+                parent0 = parent.copy()
+                before = _snapshot(src)
+                try:
+                    r = call(api, src, False)
+                except Exception as e:  # noqa: BLE001
+                    rec(tag, "raised", "%s: %s" % (type(e).__name__, e), None)
+                    continue
+                st["evals"] += fr.stop - fr.start
+                st["view_source_calls"] += 1
+                for name, arr, ref in (("xyz", src.xyz, before["xyz"]), ("unitcell_lengths", src.unitcell_lengths, before["ul"]),
+                                       ("unitcell_angles", src.unitcell_angles, before["ua"]), ("time", src.time, before["time"])):
+                    if not _same(arr, ref):
+                        rec(tag, "inplace=False-modified-source", "source %s changed (source xyz is a view: base %s)" % (
+                            name, type(src.xyz.base).__name__), None)
+                if not _same(parent, parent0):
+                    rec(tag, "inplace=False-modified-parent-buffer", "the array the source coordinates are a view of changed", None)
+                if r is src:
+                    rec(tag, "inplace=False-returned-self", "result is the source object", None)
+                for name, a_, b_ in (("xyz", r.xyz, src.xyz), ("xyz/parent", r.xyz, parent),
+                                     ("unitcell_lengths", r.unitcell_lengths, src.unitcell_lengths),
+                                     ("unitcell_angles", r.unitcell_angles, src.unitcell_angles), ("time", r.time, src.time)):
+                    if np.shares_memory(a_, b_):
+                        rec(tag, "inplace=False-result-shares-memory", "%s of result and source overlap" % name, None)
+                for name, arr, ref in (("unitcell_lengths", r.unitcell_lengths, before["ul"]),
+                                       ("unitcell_angles", r.unitcell_angles, before["ua"]), ("time", r.time, before["time"])):
+                    if not _same(arr, ref):
+                        rec(tag, "cell-or-time-modified", "result %s differs from input" % name, None)
+                if not _same(r.xyz, default_result[api][fr]):
+                    bad = np.zeros(F, bool)
+                    bad[fr] = np.any(r.xyz != default_result[api][fr], axis=(1, 2)) if r.xyz.shape == default_result[api][fr].shape else True
+                    rec(tag, "result-differs-from-owning-source", "same frames re-imaged from an owning trajectory give other "
+                        "coordinates", bad)
+
     # ---- tiny cells: every frame alone (a 1-frame trajectory) must give what it gives inside the big trajectory ----
     if cells[0].get("tiny") and not only or only == "single-frame":
         fsel = np.arange(F) if F <= 800 else np.where(np.all(sc[:, :3] == 0, axis=1))[0]
@@ -795,7 +857,8 @@ def run(ctx):
         res[i] = r
     tot = dict(evals=0, nontrivial=0, guess_raised=0, md_inconsistent=0, excluded_ambiguous=0, excluded_illcond=0,
                anchor_not_rigid_recorded=0, frames=0, api_runs=0, tuples_checked=0, topologies=0, histories=0,
-               histories_pruned=0, explicit_bond_calls=0, explicit_bond_identical_to_default=0, single_frame_calls=0)
+               histories_pruned=0, explicit_bond_calls=0, explicit_bond_identical_to_default=0, single_frame_calls=0,
+               view_source_calls=0, view_sources_that_own_memory=0)
     err = 0.0
     samples = []
     keys = set()
@@ -829,6 +892,8 @@ def run(ctx):
         "explicit_sorted_bonds_calls_judged": tot["explicit_bond_calls"],
         "explicit_sorted_bonds_results_bit_identical_to_default": tot["explicit_bond_identical_to_default"],
         "single_frame_trajectory_calls_in_tiny_cells": tot["single_frame_calls"],
+        "inplace_false_calls_on_view_sources": tot["view_source_calls"],
+        "view_sources_whose_xyz_owns_memory_after_construction": tot["view_sources_that_own_memory"],
         "edit_histories_executed": tot["histories"],
         "edit_histories_pruned_edit_not_applicable": tot["histories_pruned"],
         "angle_dihedral_tuples_checked": tot["tuples_checked"],
